@@ -10,13 +10,16 @@ use crate::util::{Rng, J};
 use lzma_rs::decompress::{Options, Stream};
 use std::io::Write;
 
-const SCEN: [&str; 6] = [
+const SCEN: [&str; 9] = [
     "valid stream",
     "corrupt stream (fails at some symbol)",
     "memory limit too small",
     "sink fails at some write",
     "over-long input (bytes after the declared size)",
     "arbitrary C05 input",
+    "error within the first payload bytes of a 5-byte-header stream (header arrives in pieces)",
+    "invalid properties byte (header arrives in pieces)",
+    "sink fails with an unusual error kind",
 ];
 
 #[derive(Clone, Copy, Debug, PartialEq, Eq)]
@@ -81,6 +84,29 @@ fn scenario(rng: &mut Rng, tier: Tier) -> Scenario {
                 file.extend_from_slice(&rng.bytes(n));
                 desc = format!("{} | {} extra bytes after the declared size", desc, n);
             }
+            6 => {
+                // UseProvided: 5-byte header, so payload bytes are staged together with the header
+                if vs.mode != 2 || file.len() < vs.hdr + 14 {
+                    continue;
+                }
+                let p = rng.range(vs.hdr as u64 + 5, vs.hdr as u64 + 12) as usize;
+                file[p] ^= 1 << rng.below(8);
+                if rng.chance(1, 2) {
+                    file[p] = rng.byte();
+                }
+                desc = format!("{} | byte {} (within the first payload bytes) corrupted", desc, p);
+            }
+            7 => {
+                file[0] = rng.range(225, 255) as u8;
+                desc = format!("{} | properties byte {}", desc, file[0]);
+            }
+            8 => {
+                let k = rng.range(1, 6);
+                let mut st = sink.0.borrow_mut();
+                st.fail_write_at = Some(k);
+                st.fail_kind = Some(*rng.pick(&[std::io::ErrorKind::WriteZero, std::io::ErrorKind::WouldBlock, std::io::ErrorKind::UnexpectedEof, std::io::ErrorKind::InvalidData, std::io::ErrorKind::BrokenPipe]));
+                desc = format!("{} | sink fails at write #{} with {:?}", desc, k, st.fail_kind.unwrap());
+            }
             _ => {
                 if let Some(i) = c05::gen_input(rng, tier, 6000) {
                     return Scenario { file: i.file, options: i.options, sink, scen, desc: i.desc };
@@ -110,6 +136,7 @@ fn fam_histories(ctx: &CaseCtx, cov: &mut Cov) -> CaseOut {
     let mut finish_after_fail = 0u64;
     let mut finish_after_complete = 0u64;
     let extra_calls = rng.range(1, 50) as usize;
+    let small_pieces = sc.scen == 6 || sc.scen == 7 || rng.chance(1, 5);
     let mut rng2 = rng.clone();
     let r = sut::guarded(|| {
         let rng = &mut rng2;
@@ -140,7 +167,8 @@ fn fam_histories(ctx: &CaseCtx, cov: &mut Cov) -> CaseOut {
                     let piece: Vec<u8> = if op == 1 {
                         vec![]
                     } else if pos < file.len() {
-                        let n = (*rng.pick(&[1usize, 1, 2, 5, 13, 19, 20, 21, 64, 300, 5000])).min(file.len() - pos);
+                        let sizes: &[usize] = if small_pieces { &[1, 1, 2, 3, 4, 5, 7, 9, 12, 19] } else { &[1, 1, 2, 5, 13, 19, 20, 21, 64, 300, 5000] };
+                        let n = (*rng.pick(sizes)).min(file.len() - pos);
                         file[pos..pos + n].to_vec()
                     } else {
                         let n = rng.range(1, 40) as usize;
@@ -314,7 +342,7 @@ pub fn monitor(tier: Tier) -> Monitor {
     Monitor {
         id: "C16",
         level: "exploration",
-        rule: "cases = random call histories over {write(next piece), write(empty), flush, get_output/get_output_mut, finish} on six scenarios (valid, corrupt, memory limit too small, sink failing at write k, bytes after the declared size, arbitrary C05 inputs), continued for up to 50 calls after the latch event (first failed write / declared size reached) with further input or garbage; an online 3-state latch checker (Running/Failed/Complete) judges every call at the API boundary (return values, shared sink length) and the snapshot hook confirms the internal phase; non-trivial = the history reached Failed or Complete; distinct by hash of (input, call log)",
+        rule: "cases = random call histories over {write(next piece), write(empty), flush, get_output/get_output_mut, finish} on nine scenarios (valid, corrupt, memory limit too small, sink failing at write k, bytes after the declared size, arbitrary C05 inputs, an error within the first payload bytes of a 5-byte-header stream whose header arrives in small pieces, an invalid properties byte arriving in pieces, a sink failing with WriteZero / WouldBlock / UnexpectedEof / InvalidData / BrokenPipe), continued for up to 50 calls after the latch event (first failed write / declared size reached) with further input or garbage; an online 3-state latch checker (Running/Failed/Complete) judges every call at the API boundary (return values, shared sink length) and the snapshot hook confirms the internal phase; non-trivial = the history reached Failed or Complete; distinct by hash of (input, call log)",
         assumptions: vec![
             "the statement itself is the oracle; no model of decoding is needed".into(),
             "a write returning fewer bytes than given is accepted only at completion (snapshot hook: produced >= declared size)".into(),
